@@ -142,11 +142,15 @@ impl TopicActor {
 
 //@fn src/topics/topic_actor.rs TopicActor::attach_subscription tags=C11
 //@ ret r
-//@ ensures r.is_ok()
+//@ # C10: attach never fails - SubscriptionManager::create_subscription registers the name BEFORE it awaits the attach and
+//@ # has no rollback, so "a failed create leaves nothing behind" holds only because this is infallible (also on a topic
+//@ # that was deleted between the handler's lookup and the attach)
+//@ ensures[C10] r.is_ok()
 //@ # insert-if-absent: an attached name is never overwritten
-//@ ensures[C11] old(self)@.subs.dom().contains(subscription.name) ==> final(self)@ == old(self)@
-//@ proof-before /^\s*Ok\(\(\)\)\s*$/ { assert(old(self)@.subs.dom().contains(subscription.name) ==> self@.subs =~= old(self)@.subs); }
-//@ ensures[C01] !old(self)@.subs.dom().contains(subscription.name) ==> final(self)@ == (TopicView { subs: old(self)@.subs.insert(subscription.name, subscription), ..old(self)@ })
+//@ ensures[C11] old(self)@.subs.dom().contains(subscription.name) ==> final(self)@.subs =~= old(self)@.subs
+//@ # C01: on a live topic a new name joins the fan-out set
+//@ ensures[C01] !old(self)@.deleted && !old(self)@.subs.dom().contains(subscription.name) ==> final(self)@.subs =~= old(self)@.subs.insert(subscription.name, subscription)
+//@ ensures[C11] final(self)@.tid == old(self)@.tid && final(self)@.next == old(self)@.next && final(self)@.deleted == old(self)@.deleted
 //@end
 
 //@fn src/topics/topic_actor.rs TopicActor::remove_subscription tags=C11
